@@ -179,9 +179,11 @@ Contrib(P, M, c) ==
 (***************************************************************************)
 (* What the file owes ([PM] "Libraries and dependencies will be            *)
 (* de-duplicated, if they are added in both public and private it will be  *)
-(* removed from the private list").  optR: package names that only stand   *)
+(* removed from the private list").  optN: package names that only stand   *)
 (* for libraries which are link_whole'd in this very call - the documents  *)
 (* do not say whether such a Requires entry stays, both are accepted.      *)
+(* partN: files that stand for a link_whole'd library (and possibly for    *)
+(* others, which keep needing the entry); used to name the failure only.   *)
 (***************************************************************************)
 Owed(P, M, c) ==
     LET t      == Contrib(P, M, c)
